@@ -589,7 +589,9 @@ class Mgm2Computation(VariableComputation):
 
                 # Then we evaluate the agent constraint's for the offer
                 # and add the partner's local gain.
-                cost = assignment_cost(partial_asgt, concerned)
+                cost = assignment_cost(
+                    partial_asgt, concerned
+                ) + self.variable.cost_for_val(my_offer_val)
                 global_gain = self.current_cost - cost + partner_local_gain
 
                 if (global_gain > best_gain and self._mode == "min") or (
@@ -911,7 +913,9 @@ class Mgm2Computation(VariableComputation):
                 for n, val in self._neighbors_gains.items()
                 if n != self._partner.name
             ]
-            if neigh_gains == [] or self._potential_gain > max(neigh_gains):
+            if neigh_gains == [] or self._better_gain(
+                self._potential_gain, self._best_gain(neigh_gains)
+            ):
                 if self.logger.isEnabledFor(logging.INFO):
                     self.logger.info(
                         f"Commited and best gain : GO for "
@@ -930,8 +934,8 @@ class Mgm2Computation(VariableComputation):
             self._enter_state("go?")
 
         else:
-            max_neighbors = max(list(self._neighbors_gains.values()))
-            if self._potential_gain > max_neighbors:
+            max_neighbors = self._best_gain(list(self._neighbors_gains.values()))
+            if self._better_gain(self._potential_gain, max_neighbors):
                 if self.logger.isEnabledFor(logging.INFO):
                     self.logger.info(
                         f"Local gain is best, {self.name} unilaterally changes its "
@@ -970,6 +974,14 @@ class Mgm2Computation(VariableComputation):
             self._clear_agent()
             self._send_value()
             self._enter_state("value")
+
+    def _best_gain(self, gains):
+        # Gains are (current cost - new cost): improvements are positive
+        # when minimizing and negative when maximizing.
+        return max(gains) if self._mode == "min" else min(gains)
+
+    def _better_gain(self, gain, other_gain):
+        return gain > other_gain if self._mode == "min" else gain < other_gain
 
     def _handle_go_message(self, variable: str, msg: Mgm2GoMessage):
         if self.logger.isEnabledFor(logging.INFO):
@@ -1059,4 +1071,7 @@ class Mgm2Computation(VariableComputation):
 
     @lru_cache(maxsize=512)
     def _compute_cost(self, **kwargs):
-        return assignment_cost(kwargs, self._constraints)
+        # The local cost includes the cost of our own value, if any.
+        return assignment_cost(kwargs, self._constraints) + self.variable.cost_for_val(
+            kwargs[self.variable.name]
+        )
